@@ -45,6 +45,19 @@ PLANS["C12"] = {
     "thorough": [J("shutdown1", "p=2,f=1,s=2", 300), J("shutdown2", "p=2,f=1,s=2,sel=1", 300), J("shutdown3", "p=2,f=1,s=2,sel=1", 300)],
 }
 
+PLANS["C04"] = {
+    "quick": [J("qos2in", "f=2,c=1", 90)],
+    "thorough": [J("qos2in", "f=3,c=2", 900)],
+}
+PLANS["C06"] = {
+    "quick": [J("inbound32", "f=1", 30), J("inbound32skip", "f=1", 30), J("inbound64", "f=1", 30)],
+    "thorough": [J("inbound32", "f=2", 600), J("inbound32skip", "f=2", 600), J("inbound64", "f=2", 600)],
+}
+PLANS["C07"] = {
+    "quick": [J("acktiming", "p=1,f=1,s=1", 90)],
+    "thorough": [J("acktiming", "p=2,f=2,s=2", 900)],
+}
+
 LEVELS = {}
 
 ASSUMPTIONS = {
